@@ -53,6 +53,7 @@ class Logic:
         self.axioms: list = []          # (needs: frozenset of symbol names, formula): definitional axioms of fresh symbols
         self.lemma_uses: list[str] = []  # names of Lean lemmas whose instances were added
         self.closures: list = []        # (name, R, rtc) triples, for pairwise simulation lemmas
+        self.defs: dict = {}            # name of a defined predicate -> (formal parameters, body)
         self._closure_pairs_done: set = set()
         if k is None:
             self.Node = z3.DeclareSort("Node")
@@ -314,3 +315,32 @@ class Logic:
             if name not in self.lemma_uses:
                 self.lemma_uses.append(name)
         return inst
+
+
+def split_cases(L: "Logic", f, depth=3, cap=48):
+    """Case analysis of a *hypothesis*: a list of conjunctions (lists of formulas) whose disjunction is equivalent to f.
+    Distributes And over Or, skolemises existentials (fresh constants), and unfolds defined predicates `depth` levels."""
+    def go(t, d):
+        if z3.is_quantifier(t) and t.is_exists():
+            n = t.num_vars()
+            fresh = [z3.Const(L.fresh_name("sk"), t.var_sort(i)) for i in range(n)]
+            body = z3.substitute_vars(t.body(), *reversed(fresh))
+            return go(body, d)
+        if z3.is_and(t):
+            out = [[]]
+            for c in t.children():
+                cs = go(c, d)
+                if len(out) * len(cs) > cap:
+                    cs = [[c]]          # too many combinations: keep this conjunct unsplit
+                out = [a + b for a in out for b in cs]
+            return out
+        if z3.is_or(t):
+            out = []
+            for c in t.children():
+                out += go(c, d)
+            return out if len(out) <= cap else [[t]]
+        if z3.is_app(t) and t.decl().kind() == z3.Z3_OP_UNINTERPRETED and d > 0 and t.decl().name() in L.defs:
+            params, body = L.defs[t.decl().name()]
+            return go(z3.substitute(body, *zip(params, t.children())), d - 1)
+        return [[t]]
+    return go(z3.simplify(f) if False else f, depth)
